@@ -113,6 +113,9 @@ fn main() {
             let stride = args.num("stride", 64) as usize;
             if stride > 0 {
                 evgen::sweep(&mut run, &[evt::SIM, 11084], stride);
+                if let Some(d) = args.get("data") {
+                    evgen::sweep_uncalibrated(&mut run, d, stride == 1);
+                }
             }
             run.finish();
         }
